@@ -873,7 +873,7 @@ theorem scanInner_match (n : Bytes) (t : SType) (force : Nat → Bool) (pre post
   simpa only [scanInner] using h2
 
 
-def forceW (binary : Bool) (names : List Bytes) (k : Nat) : Bool := binary && decide (names.length = 4) && decide (k = 3)
+def forceW (_binary : Bool) (_names : List Bytes) (_k : Nat) : Bool := false
 
 theorem scanProp_eq (binary : Bool) (names : List Bytes) (s : Scan) (p : Bytes × SType) :
     scanProp binary names s p =
